@@ -442,15 +442,15 @@ func (c *Case) tables() (string, string, string) {
 			f(k)
 		}
 	}) {
-		d = append(d, lib.Tuple(lib.Str(k), optZ(c.Durs[k])))
-		n = append(n, lib.Tuple(lib.Str(k), optZ(c.Ints[k])))
+		d = append(d, lib.Tuple(coqStr(k), optZ(c.Durs[k])))
+		n = append(n, lib.Tuple(coqStr(k), optZ(c.Ints[k])))
 	}
 	for _, k := range sortedKeys(len(c.Res), func(f func(string)) {
 		for k := range c.Res {
 			f(k)
 		}
 	}) {
-		r = append(r, lib.Tuple(lib.Str(k), lib.Bool(c.Res[k])))
+		r = append(r, lib.Tuple(coqStr(k), lib.Bool(c.Res[k])))
 	}
 	return lib.List(d), lib.List(r), lib.List(n)
 }
@@ -466,9 +466,9 @@ func (it Item) coq() string {
 	case "filter":
 		switch it.Verb {
 		case "accept":
-			return "(IFilter (Accept " + lib.Str(it.Pat) + "))"
+			return "(IFilter (Accept " + coqStr(it.Pat) + "))"
 		case "deny":
-			return "(IFilter (Deny " + lib.Str(it.Pat) + "))"
+			return "(IFilter (Deny " + coqStr(it.Pat) + "))"
 		case "reset":
 			return "(IFilter Reset)"
 		}
